@@ -2,7 +2,7 @@
    the cases on which the model and the output observed on the Go code differ
    (or on which the specification-side predicate fails on the observed output). *)
 From Coq Require Import String Ascii.
-From V Require Import Common.Base C15.Names C15.Renamer C15.Spec C15.ScopeBuild C15.ScopeProg.
+From V Require Import Common.Base C15.Names C15.Renamer C15.Spec C15.ScopeBuild C15.ScopeProg C15.ScopeSpec.
 
 (* names travel as Coq string literals (much faster to parse than byte lists) *)
 Fixpoint nm (s : string) : name :=
@@ -186,9 +186,30 @@ Fixpoint iso_tree (st : symtab) (m : list (Z * nat)) (g : ctree) (sc : scope) : 
            end
   end.
 
-(* (program, Go canonical forest) *)
+(* (program, Go canonical forest): forest isomorphism, and - specification side -
+   (a) the parser model binds exactly the references that ECMA-262 resolution binds,
+   (b) the program printed with the names the NumberRenamer model assigns on the
+       model forest resolves, per the ECMA-262 resolver, every reference to the
+       environment of the same depth as before (resolution preserved, sampled) *)
+Definition opt_eqb (a b : option nat) : bool :=
+  match a, b with Some x, Some y => Nat.eqb x y | None, None => true | _, _ => false end.
+Definition resolution_sample_ok (prog : list stmt) : bool :=
+  let '(m, st) := parse_forest prog in
+  let spec := spec_resolve prog in
+  (* a reference is unresolvable per ECMA-262 exactly when the parser bound it to an
+     unbound (pinned) symbol of the module scope *)
+  list_eqb Bool.eqb
+    (map (fun xE => match env_get (snd xE) (fst xE) with
+                    | Some s => negb (mem_nat s (sc_members m) && ns_eqb (sy_ns (getsym st s)) NsPinned)
+                    | None => false
+                    end) (parser_refs prog))
+    (map (fun o => match o with Some _ => true | None => false end) spec)
+  && match number_rename FUEL st (ComputeReservedNames st [m]) (module_top m) (sc_children m) with
+     | None => false
+     | Some names => list_eqb opt_eqb spec (spec_resolve (apply_names (number_name_for st names) prog))
+     end.
 Definition scopebuild_ok (c : list stmt * ctree) : bool :=
   let '(prog, g) := c in
   let '(m, st) := parse_forest prog in
-  match iso_tree st [] g m with Some _ => true | None => false end.
+  match iso_tree st [] g m with Some _ => true | None => false end && resolution_sample_ok prog.
 Definition check_scopebuild := mismatches scopebuild_ok.
